@@ -58,8 +58,9 @@ func resources(p *program) (core.Dict, func(core.IndirectRef) (core.Object, erro
 	}
 	xobj := func(names []string) core.Dict {
 		d := core.Dict{}
+		local := p.localNames(names)
 		for _, n := range names {
-			d[n] = core.IndirectRef{Number: numOf[n]}
+			d[local[n]] = core.IndirectRef{Number: numOf[n]}
 		}
 		return d
 	}
@@ -110,7 +111,7 @@ func resources(p *program) (core.Dict, func(core.IndirectRef) (core.Object, erro
 		if f.danglingRes && len(f.children) == 0 {
 			d["Resources"] = core.IndirectRef{Number: 9999}
 		}
-		data := f.data()
+		data := p.formData(f)
 		d["Length"] = core.Int(len(data))
 		objs[numOf[name]] = &core.Stream{Dict: d, Data: data}
 	}
@@ -137,7 +138,7 @@ func poisonFontDict() core.Dict {
 
 func runCase(c *fw.Ctx, id string, idx int) {
 	p := genProgram(c.Rand("prog", idx), idx)
-	data := render(p.ops)
+	data := p.pageData()
 	desc := p.describe()
 
 	ref := imaging.New(p.modelForms())
@@ -422,7 +423,7 @@ func pdfFile(p *program, polluter bool) []byte {
 		add("<</Type/Pages/Kids[3 0 R]/Count 1>>")
 	}
 	add("") // page, filled in below
-	add(stream("", render(p.ops)))
+	add(stream("", p.pageData()))
 	f1 := add("<</Type/Font/Subtype/Type1/BaseFont/Helvetica>>")
 	f2 := add("<</Type/Font/Subtype/Type1/BaseFont/Times-Roman>>")
 	f3 := add("<</Type/Font/Subtype/Type1/BaseFont/Courier>>")
@@ -434,8 +435,9 @@ func pdfFile(p *program, polluter bool) []byte {
 	xobj := func(names []string) string {
 		var sb strings.Builder
 		sb.WriteString("/XObject<<")
+		local := p.localNames(names)
 		for _, n := range names {
-			fmt.Fprintf(&sb, "/%s %d 0 R", n, numOf[n])
+			fmt.Fprintf(&sb, "/%s %d 0 R", local[n], numOf[n])
 		}
 		sb.WriteString(">>")
 		return sb.String()
@@ -479,7 +481,7 @@ func pdfFile(p *program, polluter bool) []byte {
 		if f.danglingRes && len(f.children) == 0 {
 			d = strings.Replace(d, "/Resources<<"+res+">>", "", 1) + "/Resources 9999 0 R"
 		}
-		add(stream(d, f.data()))
+		add(stream(d, p.formData(f)))
 	}
 	objs[2] = "<</Type/Page/Parent 2 0 R/MediaBox[0 0 612 792]/Resources<<" + fonts + xobj(top) + ">>/Contents 4 0 R>>"
 	if needPoison {
